@@ -174,8 +174,8 @@ func (b *builder) legalMethod(k callKind) svcdesc.Method {
 			return b.addMsg(b.freshMsg())
 		case x < 7 && len(b.f.Messages) > 0:
 			return "." + b.pkg + "." + b.f.Messages[b.rng.Intn(len(b.f.Messages))].Name
-		case x < 8 && oneway:
-			return b.useEmpty()
+		case x < 8 && (oneway || b.rng.Intn(4) == 0):
+			return b.useEmpty() // google.protobuf.Empty as request or response (the repository's own zorums.proto does this for every call type)
 		case x < 9:
 			return b.useImported()
 		}
@@ -189,7 +189,8 @@ func (b *builder) legalMethod(k callKind) svcdesc.Method {
 		b.addMsg(c)
 		o.Custom = goCamel(c)
 	}
-	return svcdesc.Method{Name: b.methodName(), In: in, Out: out, Opts: o, ServerStream: k == kCorrStream}
+	// a client stream is legal exactly for multicast (doc: "is required for client-server stream methods")
+	return svcdesc.Method{Name: b.methodName(), In: in, Out: out, Opts: o, ServerStream: k == kCorrStream, ClientStream: k == kMulticast && b.rng.Intn(3) == 0}
 }
 
 func (b *builder) build(class, expect, desc string) Case {
